@@ -308,7 +308,12 @@ def build_mutant(rule, site, draw, ck):
     if rule == 'return_value_in_empty':
         if ret != EMPTY:
             return None
-        return [If(Lit('bool', False, None), Block([Return(I(1))]), None)]
+        vals_ = [I(1), Lit('bool', True, None), Lit('string', b'x', None), Call('debug', []), Call('write', [I(1)]), Call('sleep', [I(0)]),
+                 ArrLit([I(1)])]
+        empties = [f.name for f in ck.prog.funcs if f.ret == EMPTY and not f.params and not f.name.startswith(('@', '!')) and f.name != func.name]
+        if empties:
+            vals_.append(Call(pick(empties), []))
+        return [If(Lit('bool', False, None), Block([Return(draw(st.sampled_from(vals_)) if len(vals_) < 8 else vals_[draw(st.integers(0, len(vals_) - 1))])]), None)]
     if rule == 'return_missing_value':
         if ret == EMPTY:
             return None
